@@ -1,76 +1,163 @@
 (* C01 — every mutator implements bounded-deque sequence semantics.
    [refines_op o] (proofs/RefDefs.v): on every well-formed state of every
-   capacity < 2^64, in every fault-free world and for every usize argument,
-   [exec o] returns what [spec_step] returns on the abstract contents, leaves
-   exactly the specified contents, emits exactly the specified events, keeps
-   the state well formed; and panics (state unchanged) exactly when the
-   specification demands it. This file only pins statements. *)
-From CB Require Import Spec.
-From CBP Require Import RefDefs RefPushPop RefTruncate RemoveSwap Views DrainP FillExtend.
+   capacity < 2^64, in every fault-free world, for every machine-value argument,
+   [exec o] returns what [spec_step] (theories/Spec.v: the documented deque over
+   plain lists) returns on the abstract contents [abs s], leaves exactly the
+   specified contents, emits exactly the specified events, keeps the state well
+   formed, and panics (state unchanged) exactly when the specification demands.
+   [C01_history] lifts this to every finite history by induction.
+   This file only pins statements; proofs are in coq/proofs/. *)
+From CB Require Import Spec Unstable.
+From Coq Require Import Permutation.
+From CBP Require Import Step RefDefs C02Lemmas Arith AbsLemmas AllOps FaultDefs FaultPrims FaultDropA FaultDropB FaultUser
+     Iters DrainP ExtendIo CmpHash Ctors PhysMoves UnstableEq Access Views RefTruncate FillExtend.
 
-Theorem C01_push_back : forall x, refines_op (OPushBack x).
-Proof. exact push_back_op. Qed.
+
+Theorem C01_step :
+  forall o, refines_op o.
+Proof. exact (exec_refines). Qed.
+Print Assumptions C01_step.
+
+Theorem C01_history :
+  forall ops s w,
+  WF s -> fault w = None -> ops_ok s ops ->
+  let '(rs, s', w') := run_history ops s w in
+  let '(srs, l', evs, nid') := spec_history (cap s) (abs s) ops (next_id w) in
+  results_ok ops srs rs /\ abs s' = l' /\ WF s' /\ cap s' = cap s /\ w' = wev w evs nid'.
+Proof. exact (history_refines). Qed.
+Print Assumptions C01_history.
+
+Theorem C01_push_back :
+  forall x, refines_op (OPushBack x).
+Proof. exact (fun x => exec_refines (OPushBack x)). Qed.
 Print Assumptions C01_push_back.
-Theorem C01_push_front : forall x, refines_op (OPushFront x).
-Proof. exact push_front_op. Qed.
+
+Theorem C01_push_front :
+  forall x, refines_op (OPushFront x).
+Proof. exact (fun x => exec_refines (OPushFront x)). Qed.
 Print Assumptions C01_push_front.
-Theorem C01_try_push_back : forall x, refines_op (OTryPushBack x).
-Proof. exact try_push_back_op. Qed.
+
+Theorem C01_try_push_back :
+  forall x, refines_op (OTryPushBack x).
+Proof. exact (fun x => exec_refines (OTryPushBack x)). Qed.
 Print Assumptions C01_try_push_back.
-Theorem C01_try_push_front : forall x, refines_op (OTryPushFront x).
-Proof. exact try_push_front_op. Qed.
+
+Theorem C01_try_push_front :
+  forall x, refines_op (OTryPushFront x).
+Proof. exact (fun x => exec_refines (OTryPushFront x)). Qed.
 Print Assumptions C01_try_push_front.
-Theorem C01_pop_back : refines_op OPopBack.
-Proof. exact pop_back_op. Qed.
+
+Theorem C01_pop_back :
+  refines_op OPopBack.
+Proof. exact (exec_refines (OPopBack)). Qed.
 Print Assumptions C01_pop_back.
-Theorem C01_pop_front : refines_op OPopFront.
-Proof. exact pop_front_op. Qed.
+
+Theorem C01_pop_front :
+  refines_op OPopFront.
+Proof. exact (exec_refines (OPopFront)). Qed.
 Print Assumptions C01_pop_front.
-Theorem C01_remove : forall i, refines_op (ORemove i).
-Proof. exact remove_op. Qed.
+
+Theorem C01_remove :
+  forall i, refines_op (ORemove i).
+Proof. exact (fun i => exec_refines (ORemove i)). Qed.
 Print Assumptions C01_remove.
-Theorem C01_swap : forall i j, refines_op (OSwap i j).
-Proof. exact swap_op. Qed.
+
+Theorem C01_swap :
+  forall i j, refines_op (OSwap i j).
+Proof. exact (fun i j => exec_refines (OSwap i j)). Qed.
 Print Assumptions C01_swap.
-Theorem C01_swap_remove_back : forall i, refines_op (OSwapRemoveBack i).
-Proof. exact swap_remove_back_op. Qed.
+
+Theorem C01_swap_remove_back :
+  forall i, refines_op (OSwapRemoveBack i).
+Proof. exact (fun i => exec_refines (OSwapRemoveBack i)). Qed.
 Print Assumptions C01_swap_remove_back.
-Theorem C01_swap_remove_front : forall i, refines_op (OSwapRemoveFront i).
-Proof. exact swap_remove_front_op. Qed.
+
+Theorem C01_swap_remove_front :
+  forall i, refines_op (OSwapRemoveFront i).
+Proof. exact (fun i => exec_refines (OSwapRemoveFront i)). Qed.
 Print Assumptions C01_swap_remove_front.
-Theorem C01_truncate_back : forall k, refines_op (OTruncateBack k).
-Proof. exact truncate_back_op. Qed.
+
+Theorem C01_truncate_back :
+  forall k, refines_op (OTruncateBack k).
+Proof. exact (fun k => exec_refines (OTruncateBack k)). Qed.
 Print Assumptions C01_truncate_back.
-Theorem C01_truncate_front : forall k, refines_op (OTruncateFront k).
-Proof. exact truncate_front_op. Qed.
+
+Theorem C01_truncate_front :
+  forall k, refines_op (OTruncateFront k).
+Proof. exact (fun k => exec_refines (OTruncateFront k)). Qed.
 Print Assumptions C01_truncate_front.
-Theorem C01_clear : refines_op OClear.
-Proof. exact clear_op. Qed.
+
+Theorem C01_clear :
+  refines_op OClear.
+Proof. exact (exec_refines (OClear)). Qed.
 Print Assumptions C01_clear.
-Theorem C01_extend : forall xs, refines_op (OExtend xs).
-Proof. exact extend_op. Qed.
+
+Theorem C01_extend :
+  forall xs, refines_op (OExtend xs).
+Proof. exact (fun xs => exec_refines (OExtend xs)). Qed.
 Print Assumptions C01_extend.
-Theorem C01_extend_ref : forall xs, refines_op (OExtendRef xs).
-Proof. exact extend_ref_op. Qed.
+
+Theorem C01_extend_ref :
+  forall xs, refines_op (OExtendRef xs).
+Proof. exact (fun xs => exec_refines (OExtendRef xs)). Qed.
 Print Assumptions C01_extend_ref.
-Theorem C01_fill : forall v, refines_op (OFill v).
-Proof. exact fill_op. Qed.
+
+Theorem C01_extend_from_slice :
+  forall xs, refines_op (OExtendFromSlice xs).
+Proof. exact (fun xs => exec_refines (OExtendFromSlice xs)). Qed.
+Print Assumptions C01_extend_from_slice.
+
+Theorem C01_fill :
+  forall v, refines_op (OFill v).
+Proof. exact (fun v => exec_refines (OFill v)). Qed.
 Print Assumptions C01_fill.
-Theorem C01_fill_with : refines_op OFillWith.
-Proof. exact fill_with_op. Qed.
+
+Theorem C01_fill_with :
+  refines_op OFillWith.
+Proof. exact (exec_refines (OFillWith)). Qed.
 Print Assumptions C01_fill_with.
-Theorem C01_fill_spare : forall v, refines_op (OFillSpare v).
-Proof. exact fill_spare_op. Qed.
+
+Theorem C01_fill_spare :
+  forall v, refines_op (OFillSpare v).
+Proof. exact (fun v => exec_refines (OFillSpare v)). Qed.
 Print Assumptions C01_fill_spare.
-Theorem C01_fill_spare_with : refines_op OFillSpareWith.
-Proof. exact fill_spare_with_op. Qed.
+
+Theorem C01_fill_spare_with :
+  refines_op OFillSpareWith.
+Proof. exact (exec_refines (OFillSpareWith)). Qed.
 Print Assumptions C01_fill_spare_with.
-Theorem C01_drain : forall sb eb script forget, refines_op (ODrain sb eb script forget).
-Proof. exact drain_op. Qed.
+
+Theorem C01_drain :
+  forall sb eb script forget, refines_op (ODrain sb eb script forget).
+Proof. exact (fun sb eb script forget => exec_refines (ODrain sb eb script forget)). Qed.
 Print Assumptions C01_drain.
-Theorem C01_make_contiguous : forall ws, refines_op (OMakeContiguous ws).
-Proof. exact make_contiguous_op. Qed.
+
+Theorem C01_make_contiguous :
+  forall ws, refines_op (OMakeContiguous ws).
+Proof. exact (fun ws => exec_refines (OMakeContiguous ws)). Qed.
 Print Assumptions C01_make_contiguous.
-Theorem C01_as_mut_slices_write : forall ws, refines_op (OAsMutSlicesSet ws).
-Proof. exact as_mut_slices_set_op. Qed.
+
+Theorem C01_as_mut_slices_write :
+  forall ws, refines_op (OAsMutSlicesSet ws).
+Proof. exact (fun ws => exec_refines (OAsMutSlicesSet ws)). Qed.
 Print Assumptions C01_as_mut_slices_write.
+
+Theorem C01_iter_mut_write :
+  forall script, refines_op (OIterMut script).
+Proof. exact (fun script => exec_refines (OIterMut script)). Qed.
+Print Assumptions C01_iter_mut_write.
+
+Theorem C01_range_mut_write :
+  forall sb eb script, refines_op (ORangeMut sb eb script).
+Proof. exact (fun sb eb script => exec_refines (ORangeMut sb eb script)). Qed.
+Print Assumptions C01_range_mut_write.
+
+Theorem C01_get_mut_write :
+  forall i v, refines_op (OGetMutSet i v).
+Proof. exact (fun i v => exec_refines (OGetMutSet i v)). Qed.
+Print Assumptions C01_get_mut_write.
+
+Theorem C01_index_mut_write :
+  forall i v, refines_op (OIndexMutSet i v).
+Proof. exact (fun i v => exec_refines (OIndexMutSet i v)). Qed.
+Print Assumptions C01_index_mut_write.
